@@ -25,7 +25,7 @@ RULE = (
 )
 ASSUMPTIONS = ["acceptance of words longer than L (8 quick / 11 thorough) is covered only through automaton-vs-automaton equivalence",
                "reads only states/transitions/initial_state/final_states of automata-lib DFA objects"]
-REQUIRED = ["env.shards_with_other_hashseed", "planted.words_decided", "calls.PinWords.make_dfa_for_perm", "calls.PinWords.make_dfa_for_basis_from_pinwords", "calls.PinWords.make_dfa_for_basis_from_db",
+REQUIRED = ["history.sequences", "env.shards_with_other_hashseed", "planted.words_decided", "calls.PinWords.make_dfa_for_perm", "calls.PinWords.make_dfa_for_basis_from_pinwords", "calls.PinWords.make_dfa_for_basis_from_db",
             "calls.PinWords.has_finite_pinperms", "words.decided", "words.accepted", "words.rejected", "equivalence.checked", "finite.true", "finite.false",
             "counts.lengths_checked", "nonpin.bases"]
 MIN_NONTRIVIAL = 500
@@ -185,6 +185,34 @@ def chk_basis(ctx, basis, label="driver"):
         report("basis", [basis, label], f"has_finite_pinperms differs by source: scratch {a}, db {b}, given dfa {c}")
 
 
+def colliding_bases(rng, count):
+    """pairs of DIFFERENT bases whose one-line notations, written one after the other without separators, read the same
+    (e.g. 10,012 and 01,210): whatever is keyed or named by such a concatenation confuses them"""
+    pool = [p for k in (2, 3, 4) for p in itertools.permutations(range(k))]
+    seen, pairs = {}, []
+    cands = [tuple(c) for r in (2, 3) for c in (rng.sample(pool, r) for _ in range(6000))]
+    for basis in cands:
+        strs = ["".join(map(str, p)) for p in basis]
+        for key in ("".join(sorted(strs)), "".join(sorted(strs, key=lambda s: (len(s), s)))):
+            other = seen.setdefault(key, basis)
+            if set(other) != set(basis) and len(pairs) < count * 4:
+                pairs.append((other, basis))
+    rng.shuffle(pairs)
+    return [([list(p) for p in a], [list(p) for p in b]) for a, b in pairs[:count]]
+
+
+def chk_history(ctx, bases):
+    """several bases through the SAME process and automaton store, one after the other (each call judged by the monitors):
+    colliding notations, and a basis followed by its own proper prefixes"""
+    for basis in bases:
+        B = [Perm(b) for b in basis]
+        PinWords.make_dfa_for_basis_from_pinwords(B)
+        PinWords.make_dfa_for_basis_from_db(B)
+        PinWords.make_dfa_for_basis(B, use_db=True)
+        PinWords.has_finite_pinperms(B), PinWords.has_finite_pinperms(B, use_db=True)
+    ctx.count("history.sequences")
+
+
 def chk_planted(ctx, m, seed):
     """a long basis element given by a pin sequence m (8-9 letters, self-overlapping ones favoured): pin sequences in which m
     is planted after one of its own prefixes (so that a match starts inside a failed attempt) are judged by real containment"""
@@ -214,7 +242,7 @@ def chk_planted(ctx, m, seed):
             return
 
 
-CHECKS = {"basis": chk_basis, "planted": chk_planted}
+CHECKS = {"basis": chk_basis, "planted": chk_planted, "history": chk_history}
 
 
 def plan(tier, seed):
@@ -234,6 +262,7 @@ def plan(tier, seed):
     specs += [dict(specs[j], name=f"bases-hashseed-{j}", env={"PYTHONHASHSEED": str(977 + 31 * j + seed)}) for j in (0, 5)]
     specs.append({"name": "nonpin", "kind": "nonpin", "count": 2 if tier == "quick" else 3})
     specs.append({"name": "planted", "kind": "planted", "count": 6 if tier == "quick" else 40})
+    specs += [{"name": f"history-{i}", "kind": "history", "count": 3 if tier == "quick" else 12} for i in range(2 if tier == "quick" else 6)]
     return specs
 
 
@@ -259,6 +288,14 @@ def nonpin_bases(rng):
 
 def run(ctx, spec):
     rng = ctx.rng
+    if spec.get("kind") == "history":
+        for a, b in colliding_bases(rng, spec["count"]):
+            chk_history(ctx, [a, b, a])
+        for _ in range(spec["count"]):
+            basis = [rng.sample(range(k), k) for k in (rng.choice([3, 4, 4]) for _ in range(rng.randint(2, 3)))]
+            chk_history(ctx, [basis, basis[:-1], basis[:1], basis[1:], basis])
+        ctx.sample({"history_basis": basis})
+        return
     if spec.get("kind") == "planted":
         fixed = ["URULURUL", "ULURULUR", "RURDRURD", "DLDRDLDR"]
         for i in range(spec["count"]):
